@@ -155,6 +155,10 @@ theorem exec_frame (cfg : Cfg) (n : Nat) (c : Comb) (s : St) : ResFrame s (exec 
     | checkErrors => exact checkErrors_frame cfg s
     | advanceChunk => exact advanceChunk_frame cfg s
     | atEnd => exact atEnd_frame s
+    | subConfined l toks body =>
+      simp only [exec]
+      generalize exec cfg n body { level := l, toks := toks } = r
+      cases r <;> simp only [subFinish, ResFrame] <;> first | exact Frame.refl s | trivial
 /-! ### lockstep of two lenient runs (IGNORE / WARN) and of two IMMEDIATE runs -/
 
 def Lenient (l : Level) : Prop := l = .ignore ∨ l = .warn
@@ -324,6 +328,10 @@ theorem exec_L (cfg : Cfg) (n : Nat) (c : Comb) {s1 s2 : St} (h : LRel s1 s2) :
     | checkErrors => exact checkErrors_L cfg h
     | advanceChunk => exact advanceChunk_L cfg h
     | atEnd => exact atEnd_L h
+    | subConfined l toks body =>
+      simp only [exec]
+      generalize exec cfg n body { level := l, toks := toks } = r
+      cases r <;> simp only [subFinish, ResL] <;> first | exact ⟨rfl, h⟩ | trivial
 /-! ### a WARN run that continues after the strict run has raised: it never raises and keeps what it logged -/
 
 def FirstBatch (b : List Msg) (s : St) : Prop := firstNonempty s.log = some b
@@ -615,6 +623,10 @@ theorem exec_W (cfg : Cfg) (n : Nat) (c : Comb) {s1 s2 : St} (h : WRel s1 s2) :
     | checkErrors => exact checkErrors_W cfg h
     | advanceChunk => exact advanceChunk_W cfg h
     | atEnd => exact atEnd_W cfg h
+    | subConfined l toks body =>
+      simp only [exec]
+      generalize exec cfg n body { level := l, toks := toks } = r
+      cases r <;> simp only [subFinish, ResW] <;> first | exact ⟨rfl, h⟩ | trivial
 /-! ### IMMEDIATE run (left) against WARN run (right) -/
 
 def IRel (s1 s2 : St) : Prop :=
@@ -819,6 +831,10 @@ theorem exec_I (cfg : Cfg) (n : Nat) (c : Comb) {s1 s2 : St} (h : IRel s1 s2) :
     | checkErrors => exact checkErrors_I cfg h
     | advanceChunk => exact advanceChunk_I cfg h
     | atEnd => exact atEnd_I h
+    | subConfined l toks body =>
+      simp only [exec]
+      generalize exec cfg n body { level := l, toks := toks } = r
+      cases r <;> simp only [subFinish, ResI] <;> first | exact ⟨rfl, h⟩ | trivial
 
 
 /-! ### generator side -/
@@ -836,24 +852,28 @@ theorem unsupportedAll_soft (ds : List (Bool × Msg)) (s : GSt) (h : s.level ≠
       rw [ih { s with messages := s.messages ++ [m] } h]
       simp [diagMsgs]
 
-/-- below IMMEDIATE the generator never raises: it emits `gtext p` and appends `gmsgs p` -/
-theorem gexec_soft (p : GComb) (s : GSt) (h : s.level ≠ .immediate) :
+/-- below IMMEDIATE the generator never raises — provided no direct `raise UnsupportedError` is reached:
+    it emits `gtext p` and appends `gmsgs p` -/
+theorem gexec_soft (p : GComb) (s : GSt) (h : s.level ≠ .immediate) (hn : gNoHard p = true) :
     gexec p s = .ok (gtext p) { s with messages := s.messages ++ gmsgs p } := by
   induction p generalizing s with
   | text t => simp [gexec, gtext, gmsgs]
   | unsupported m => simp [gexec, unsupported, h, gtext, gmsgs]
   | seq a b iha ihb =>
+    simp only [gNoHard, Bool.and_eq_true] at hn
     simp only [gexec, gtext, gmsgs]
-    rw [iha s h]
+    rw [iha s h hn.1]
     simp only [GRes.bind]
-    rw [ihb ⟨s.level, s.messages ++ gmsgs a⟩ h]
+    rw [ihb ⟨s.level, s.messages ++ gmsgs a⟩ h hn.2]
     simp
   | unsupportedArgs ds body ih =>
+    simp only [gNoHard] at hn
     simp only [gexec, gtext, gmsgs]
     rw [unsupportedAll_soft ds s h]
     simp only [GRes.bind]
-    rw [ih ⟨s.level, s.messages ++ diagMsgs ds⟩ h]
+    rw [ih ⟨s.level, s.messages ++ diagMsgs ds⟩ h hn]
     simp
+  | hard m => simp [gNoHard] at hn
 
 theorem unsupportedAll_imm (ds : List (Bool × Msg)) (s : GSt) (h : s.level = .immediate) :
     unsupportedAll ds s = match diagMsgs ds with
@@ -868,7 +888,7 @@ theorem unsupportedAll_imm (ds : List (Bool × Msg)) (s : GSt) (h : s.level = .i
     | true => simp [unsupportedAll, unsupported, h, GRes.bind, diagMsgs]
 
 /-- under IMMEDIATE the generator raises the first message, or emits `gtext p` untouched if there is none -/
-theorem gexec_imm (p : GComb) (s : GSt) (h : s.level = .immediate) :
+theorem gexec_imm (p : GComb) (s : GSt) (h : s.level = .immediate) (hn : gNoHard p = true) :
     gexec p s = match gmsgs p with
       | [] => .ok (gtext p) s
       | m :: _ => .exc [m] 0 s := by
@@ -876,24 +896,51 @@ theorem gexec_imm (p : GComb) (s : GSt) (h : s.level = .immediate) :
   | text t => simp [gexec, gtext, gmsgs]
   | unsupported m => simp [gexec, unsupported, h, gmsgs]
   | seq a b iha ihb =>
+    simp only [gNoHard, Bool.and_eq_true] at hn
     simp only [gexec, gtext, gmsgs]
-    rw [iha]
+    rw [iha hn.1]
     cases ha : gmsgs a with
     | nil =>
       simp only [GRes.bind, List.nil_append]
-      rw [ihb]
+      rw [ihb hn.2]
       cases hb : gmsgs b <;> simp
     | cons m ms => simp [GRes.bind]
   | unsupportedArgs ds body ih =>
+    simp only [gNoHard] at hn
     simp only [gexec, gtext, gmsgs]
     rw [unsupportedAll_imm ds s h]
     cases hd : diagMsgs ds with
     | nil =>
       simp only [GRes.bind, List.nil_append]
-      exact ih
+      exact ih hn
     | cons m ms => simp [GRes.bind]
+  | hard m => simp [gNoHard] at hn
 
+/-- a direct `raise UnsupportedError` is level-blind: whatever the level and the messages so far, it raises -/
+theorem gexec_hard (m : Msg) (s : GSt) : gexec (.hard m) s = .exc [m] 0 s := rfl
 
+/-! ### programs without propagating sub-parsers / direct raises are exactly the core programs -/
+
+theorem xexec_confined (cfg : Cfg) (n : Nat) (x : XComb) (s : St) (h : x.confined = true) :
+    xexec cfg n x s = exec cfg n x.toComb s := by
+  induction n generalizing x s with
+  | zero => simp [xexec, exec]
+  | succ n ih =>
+    cases x with
+    | core c => simp [xexec, XComb.toComb]
+    | seq tag a b =>
+      simp only [XComb.confined, Bool.and_eq_true] at h
+      simp only [xexec, XComb.toComb, exec, ih a _ h.1]
+      congr 1; funext ra s1; rw [ih b _ h.2]
+    | orElse a b =>
+      simp only [XComb.confined, Bool.and_eq_true] at h
+      simp only [xexec, XComb.toComb, exec, ih a _ h.1]
+      congr 1; funext ra s1; rw [ih b _ h.2]
+    | tryParse c r =>
+      simp only [XComb.confined] at h
+      simp only [xexec, XComb.toComb, exec, ih c _ h]
+    | subParse l toks body => simp [XComb.confined] at h
+    | hardRaise m => simp [XComb.confined] at h
 
 /-! ### every logged batch is a prefix of the error list (errors are never removed) -/
 
@@ -1008,6 +1055,10 @@ theorem exec_inv (cfg : Cfg) (n : Nat) (c : Comb) {s : St} (h : LogInv s) : ResI
     | checkErrors => exact checkErrors_inv cfg h
     | advanceChunk => unfold exec advanceChunk; split <;> exact h
     | atEnd => unfold exec atEnd; split <;> exact h
+    | subConfined l toks body =>
+      simp only [exec]
+      generalize exec cfg n body { level := l, toks := toks } = r
+      cases r <;> simp only [subFinish, ResInv] <;> first | exact h | trivial
 
 theorem init_inv (l : Level) : LogInv (init l) := by
   intro b hb; simp [init] at hb
